@@ -389,6 +389,18 @@ class Live:
           break
     return o, cont, None
 
+def _recover_in_parts(self, history_json, cut):
+  p = pg()
+  alg = self.fresh()
+  try:
+    h = [(d, (tuple(r) if isinstance(r, list) else r)) for d, r in p.from_json_str(history_json)]
+    alg.recover(h[:cut])
+    alg.recover(h[cut:])
+  except Exception as ex:
+    return [-2, err_code(ex)], '%s: %s' % (type(ex).__name__, str(ex)[:200])
+  return observe(self.space, self.cfg, alg), None
+Live.recover_in_parts = _recover_in_parts
+
 def cfg_evo(cfg):
   while cfg[0] == 'dedup':
     cfg = cfg[1]
@@ -467,7 +479,18 @@ def evaluate_case(case, lv=None):
         d = diff_clause(cfg, property_view(lobs), property_view(pobs))
         if d:
           hits.append(('C15/proposal-time-metadata/%s/%s' % (d[0], sh), '%s, history with the DNAs as they were proposed: %s (crash point %d of schedule %s)' % (sh, d[1], c, ''.join(sched)), c))
-    outs.append([lobs, robs, lcont, rcont, und, ptm])
+    parts = []
+    if k >= 2 and c % 3 == 0:
+      qobs, qerr = lv.recover_in_parts(hjson, k // 2)
+      parts = [qobs]
+      sh = shape(cfg)
+      if qerr is not None:
+        hits.append(('C15/recover-in-parts/recover-raises/%s/%s' % (sh, qerr.split(':')[0]), 'recover() called twice on the two halves of the history raises %s (crash point %d)' % (qerr, c), c))
+      else:
+        d = diff_clause(cfg, property_view(lobs), property_view(qobs))
+        if d:
+          hits.append(('C15/recover-in-parts/%s/%s' % (d[0], sh), '%s, recover() called twice on the two halves of the history: %s (crash point %d of schedule %s)' % (sh, d[1], c, ''.join(sched)), c))
+    outs.append([lobs, robs, lcont, rcont, und, ptm, parts])
     sh = shape(cfg)
     if err is not None:
       hits.append(('C15/recover-raises/%s/%s' % (sh, err.split(':')[0]), 'recover() raises %s at crash point %d' % (err, c), c))
